@@ -6,7 +6,7 @@ false result or exhaustion.  Trampolines deliver their argument exactly once.  C
 for Some and returns 0 only then; next() reads the slot only when the code is 0.  Context and function are erased together.
 """
 import re
-from lib import facts, mir, report
+from lib import facts, mir, report, sem
 
 CB = "cglue::callback::"
 NEXT = "std::iter::Iterator::next"
@@ -117,6 +117,92 @@ def check_feed_loop(ck, fn, counting):
     return len(paths)
 
 
+def check_internal_iteration(ck, fn, by, counting):
+    """Feeding written with a short-circuiting internal iterator instead of an explicit loop: `into_iter().try_fold(0, |cnt, v| ..)` or
+    `.all(|v| ..)`.  std's contract for these is "call the closure once per item, in order, until it says stop"; what remains to check is
+    the closure: one callback.call(item) per invocation, stop exactly when it returns false, and (counting) the accumulator grows by one
+    on both outcomes and is what the function returns."""
+    body = mir.Body(fn)
+    key = fn["path"]
+    tf = [(i, t) for i, t in body.calls() if cp(t) in ("std::iter::Iterator::try_fold", "std::iter::Iterator::all")]
+    if len(tf) != 1 or body.in_cycle(tf[0][0]) or not body.on_all_paths_to_return(tf[0][0]):
+        return False
+    i, t = tf[0]
+    kind = cp(t).split("::")[-1]
+    it = mir.strip(body.origin_operand(t["args"][0]))
+    while it[0] == "call" and it[1].endswith("into_iter"):
+        it = mir.strip(it[2][0])
+    clo = body.origin_operand(t["args"][-1])
+    cpath = clo[1][len("closure:"):] if clo[0] == "agg" and str(clo[1]).startswith("closure:") else None
+    cfn = by.get(cpath)
+    if it != ("arg", 1) or cfn is None:
+        return False
+    if kind == "try_fold" and body.origin_operand(t["args"][1]) != ("const", 0, "usize"):
+        return False
+    ev = sem.Evaluator(by, {}, inline=lambda p: p != CALL)
+    env, acc, item = ("sym", "env"), ("sym", "acc"), ("sym", "item")
+    outs = ev.run(cfn, [env, acc, item] if kind == "try_fold" else [env, item])
+    good = bool(outs) and all(o.kind == "ret" for o in outs)
+    for o in outs:
+        calls = o.calls(CALL)
+        good = good and len(calls) == 1 and sem.strip(calls[0][2][-1]) == item and len([e for e in o.effects if e[0] in ("call", "icall")]) == 1 \
+            and not [e for e in o.effects if e[0] == "drop" and sem.contains(e[1], lambda x: x == item)]
+        if not good:
+            break
+        verdict = [c for c in o.conds if c[0] == "eq" and sem.strip(c[1])[0] == "opq" and sem.strip(c[1])[1] == calls[0][3]]
+        r = sem.strip(o.ret)
+        if kind == "all":
+            # the closure returns the callback's verdict itself (continue while true)
+            good = good and r[0] == "opq" and r[1] == calls[0][3] or (len(verdict) == 1 and r == ("const", verdict[0][2]))
+        else:
+            if len(verdict) != 1 or r[0] != "agg":
+                good = False
+                break
+            go_on = verdict[0][2] == 1
+            good = good and ((r[3] in ("Ok", "Continue", "Some")) == go_on)
+            p0 = sem.strip(r[4][0]) if r[4] else ("?",)
+            good = good and (not counting or (p0[0] == "opq" and p0[2][0] == "bin" and p0[2][1] in ("Add", "AddUnchecked") and sem.strip(p0[2][2]) == acc and sem.strip(p0[2][3]) == ("const", 1)))
+    if good and counting and kind == "try_fold":
+        # the function returns the accumulator carried by either outcome of try_fold
+        whole = sem.Evaluator(by, {}, inline=lambda p: False)
+        outs2 = whole.run(fn, [("sym", "self"), ("sym", "callback")])
+        good = bool(outs2) and all(o.kind == "ret" and sem.strip(o.ret)[0] == "pay" and sem.strip(sem.strip(o.ret)[1])[0] == "opq"
+                                   and sem.strip(sem.strip(o.ret)[1])[2][1] == "std::iter::Iterator::try_fold" for o in outs2)
+    return good
+
+
+def shape_check_iter_trampoline(ck, fn):
+    body = mir.Body(fn)
+    key = fn["path"]
+    nx = [(i, t) for i, t in body.calls() if cp(t) == NEXT]
+    ok = len(nx) == 1 and body.on_all_paths_to_return(nx[0][0]) and not body.in_cycle(nx[0][0]) and mir.strip(body.origin_operand(nx[0][1]["args"][0])) == ("arg", 1)
+    if not ck.ob("I-one-next", key, ok, "%s must advance its source exactly once per call" % key):
+        return
+    sws = [s for s in mir.discr_switches(body) if s[1][0] == "discr" and s[1][1][0] == "call" and s[1][1][1] == NEXT and set(mir.enum_arms(body, s)) == {0, 1}]
+    if not ck.ob("I-dispatch", key, len(sws) >= 1, "%s does not match on next()" % key):
+        return
+    sw = sws[0]
+    arm = mir.enum_arms(body, sw)
+    some_b, none_b = mir.dominated(body, arm[1]), mir.dominated(body, arm[0])
+    writes = [(i, t) for i, t in body.calls() if cp(t).endswith("::write")]
+    good = len(writes) == 1 and writes[0][0] in some_b
+    if good:
+        t = writes[0][1]
+        dst = mir.strip(body.origin_operand(t["args"][0]))
+        while dst[0] == "call" and dst[1].endswith("as_mut_ptr"):
+            dst = mir.strip(dst[2][0])
+        good = dst == ("arg", 2) and body.origin_operand(t["args"][1]) == ("field", ("downcast", sw[1][1], "Some"), "0")
+    ck.ob("I-write-only-for-item", key, good, "%s must write the yielded item (and only it) into `out` exactly on the Some arm" % key, sample={"fn": key})
+    rs = {}
+    for d in body.defs().get(0, []):
+        if d[2] == "rv":
+            o = body.origin_rvalue(d[3])
+            arm = "some" if d[0] in some_b else ("none" if d[0] in none_b else "?")
+            rs[arm] = o
+    ck.ob("I-code-zero-iff-item", key, rs.get("some") == ("const", 0, "i32") and rs.get("none", ("x",))[0] == "const" and rs["none"][1] != 0 and "?" not in rs,
+          "%s returns %s (must be 0 exactly when an item was written)" % (key, {k: mir.fmt(v) for k, v in rs.items()}))
+
+
 def check_trampoline(ck, fn):
     """extern "C" fn(ctx, item) -> bool: the item is consumed by exactly one call on every path."""
     body = mir.Body(fn)
@@ -154,6 +240,7 @@ def run(tier):
     ck.unit("cglue lib")
     fns = [x for x in f.fns("cglue-lib") if "/callback.rs" in x["span"] or "/iter.rs" in x["span"]]
     by = {x["path"]: x for x in fns}
+    by_all = {x["path"]: x for x in f.fns("cglue-lib")}
     # ---- feeding loops --------------------------------------------------------------------------------
     n_loops = 0
     for fn in fns:
@@ -162,7 +249,7 @@ def run(tier):
             counting = fn["output"] == "usize"
             n_loops += 1
             check_feed_loop(ck, fn, counting)
-    ck.floor("feeding loops", n_loops, 2)
+    ck.floor("feeding entry points", len([x for x in fns if x["name"] in ("feed_into_mut", "extend")]), 2)
     # the two feeding entry points are identified by what they implement; each must be a recognisable feeding loop
     # (accepted idiom: `for v in iter { [cnt += 1;] if !callback.call(v) { break } }`), otherwise count/stop behaviour is not established
     for fn in fns:
@@ -172,7 +259,8 @@ def run(tier):
             body = mir.Body(fn)
             has_loop = any(cp(t) == NEXT and body.in_cycle(i) for i, t in body.calls())
             direct = [(i, t) for i, t in body.calls() if cp(t) == CALL]
-            ck.ob("L-feed-loop-shape", fn["path"], has_loop and len(direct) >= 1,
+            internal = (not has_loop) and check_internal_iteration(ck, fn, by_all, is_feed)
+            ck.ob("L-feed-loop-shape", fn["path"], (has_loop and len(direct) >= 1) or internal,
                   "%s (%s) is not a loop over `next()` that calls the callback itself (e.g. it delegates to iterator adapters): the rule cannot establish that every offered "
                   "item is counted and that feeding stops after the first `false`; accepted idiom: for v in iter { cnt += 1; if !callback.call(v) { break } }" % (fn["path"], fn["span"]),
                   sample={"fn": fn["path"]})
@@ -192,13 +280,17 @@ def run(tier):
     n_pair = 0
     for fn in fns:
         body = mir.Body(fn)
+        # pairing sites: `Callback { context, func }` aggregates and `Callback::new(context, func)` calls
+        pair_sites = []
         for i in sorted(body.live_blocks()):
             for s in body.blocks[i]["s"]:
-                if s["k"] != "assign" or s["r"]["k"] != "agg":
-                    continue
-                adt = s["r"].get("adt")
-                if adt == CB + "Callback":
-                    ops = dict(zip(s["r"]["fields"], [body.origin_operand(o) for o in s["r"]["ops"]]))
+                if s["k"] == "assign" and s["r"]["k"] == "agg" and s["r"].get("adt") == CB + "Callback":
+                    pair_sites.append(dict(zip(s["r"]["fields"], [body.origin_operand(o) for o in s["r"]["ops"]])))
+        for i, t in body.calls():
+            if cp(t) == CB + "Callback::<'a, T, F>::new":
+                pair_sites.append({"context": body.origin_operand(t["args"][0]), "func": body.origin_operand(t["args"][1])})
+        for ops in pair_sites:
+                if True:
                     n_pair += 1
                     fo = ops["func"]
                     while fo[0] == "cast":
@@ -227,61 +319,79 @@ def run(tier):
                         same = (fo[0] == "field" and co[0] == "field" and fo[1] == co[1] and fo[2] == "func" and co[2] == "context") or \
                                (fo[0] == "arg" and co[0] == "arg")
                         ck.ob("P-pair-same-source", fn["path"], same, "%s builds a Callback from context=%s and func=%s (different sources)" % (fn["path"], mir.fmt(co), mir.fmt(fo)))
+        for i in sorted(body.live_blocks()):
+            for s in body.blocks[i]["s"]:
+                if s["k"] != "assign" or s["r"]["k"] != "agg":
+                    continue
+                adt = s["r"].get("adt")
                 if adt == CB + "OpaqueCallback":
                     o = body.origin_operand(s["r"]["ops"][0])
                     ck.ob("P-opaque-from-into-opaque", fn["path"], o[0] == "call" and o[1].endswith("Callback::<'a, T, F>::into_opaque"),
                           "%s builds an OpaqueCallback from %s" % (fn["path"], mir.fmt(o)))
-    ck.floor("Callback constructions", n_pair, 5)
+    ck.floor("Callback constructions", n_pair, 4)
     # OpaqueCallback::call: func and context of the same pair, argument forwarded
     for name in (CALL, "<cglue::callback::OpaqueCallback<'_, T> as cglue::callback::Callbackable<T>>::call"):
         fn = by.get(name)
         if not ck.require(fn is not None, "function " + name):
             continue
-        body = mir.Body(fn)
-        ic = [(i, t) for i, t in body.calls() if t.get("callee") is None]
-        ok = len(ic) == 1 and body.on_all_paths_to_return(ic[0][0])
+        # semantic form: one indirect call, through this callback's own `func`, with its own `context` and the argument; its result returned
+        ev = sem.Evaluator(by_all, {}, inline=lambda p: p.startswith(("cglue::", "<cglue::")))
+        me, data = ("sym", "self"), ("sym", "data")
+        outs = ev.run(fn, [me, data])
+        ok = len(outs) == 1 and outs[0].kind == "ret"
         if ok:
-            t = ic[0][1]
-            fo = mir.strip(body.origin_operand(t["f"]))
-            co = mir.strip(body.origin_operand(t["args"][0]))
-            ao = body.origin_operand(t["args"][1])
-            ok = fo[0] == "field" and fo[2] == "func" and co[0] == "field" and co[2] == "context" and mir.strip(fo[1]) == mir.strip(co[1]) and ao == ("arg", 2) \
-                and body.origin_local(0)[0] == "icall"
+            ics = [e for e in outs[0].effects if e[0] == "icall"]
+            others = [e for e in outs[0].effects if e[0] == "call"]
+            ok = len(ics) == 1 and not others
+            if ok:
+                fval, args = sem.strip(ics[0][1]), [sem.strip(a) for a in ics[0][2]]
+
+                def cb_field(v, name):
+                    # (**self).0.<name> -- through any number of references to the callback
+                    return v[0] == "fld" and v[3] == name and sem.contains(v, lambda x: x == me)
+                r = sem.strip(outs[0].ret)
+                ok = cb_field(fval, "func") and len(args) == 2 and cb_field(args[0], "context") and fval[1] == args[0][1] and args[1] == data \
+                    and r[0] == "opq" and r[2][0] == "icall"
         ck.ob("P-call-uses-own-pair", name, ok, "%s does not invoke its own func with its own context and the argument, returning the verdict" % name)
 
     # ---- CIterator -----------------------------------------------------------------------------------------
     tr = [x for x in fns if x.get("abi", "").startswith("C") and "/iter.rs" in x["span"]]
     ck.floor("iterator trampolines", len(tr), 1)
     for fn in tr:
-        body = mir.Body(fn)
         key = fn["path"]
-        nx = [(i, t) for i, t in body.calls() if cp(t) == NEXT]
-        ok = len(nx) == 1 and body.on_all_paths_to_return(nx[0][0]) and not body.in_cycle(nx[0][0]) and mir.strip(body.origin_operand(nx[0][1]["args"][0])) == ("arg", 1)
-        if not ck.ob("I-one-next", key, ok, "%s must advance its source exactly once per call" % key):
+        # semantic form: per case of `next()` -- Some(e): e is written into `out` exactly once (a raw write, nothing read or dropped there)
+        # and 0 is returned; None: `out` is not touched and a non-zero code is returned
+        ev = sem.Evaluator(by_all, {}, inline=lambda p: "::{closure" in p)
+        it, out = ("sym", "iter"), ("sym", "out")
+        outs = ev.run(fn, [it, out])
+        if not outs or any(o.kind != "ret" for o in outs):
+            shape_check_iter_trampoline(ck, fn)
             continue
-        sws = [s for s in mir.discr_switches(body) if s[1][0] == "discr" and s[1][1][0] == "call" and s[1][1][1] == NEXT and set(mir.enum_arms(body, s)) == {0, 1}]
-        if not ck.ob("I-dispatch", key, len(sws) >= 1, "%s does not match on next()" % key):
+        good_next = all(len(o.calls(NEXT)) == 1 and sem.strip(o.calls(NEXT)[0][2][0]) == it for o in outs)
+        if not ck.ob("I-one-next", key, good_next, "%s must advance its source exactly once per call" % key):
             continue
-        sw = sws[0]
-        arm = mir.enum_arms(body, sw)
-        some_b, none_b = mir.dominated(body, arm[1]), mir.dominated(body, arm[0])
-        writes = [(i, t) for i, t in body.calls() if cp(t).endswith("::write")]
-        good = len(writes) == 1 and writes[0][0] in some_b
-        if good:
-            t = writes[0][1]
-            dst = mir.strip(body.origin_operand(t["args"][0]))
-            while dst[0] == "call" and dst[1].endswith("as_mut_ptr"):
-                dst = mir.strip(dst[2][0])
-            good = dst == ("arg", 2) and body.origin_operand(t["args"][1]) == ("field", ("downcast", sw[1][1], "Some"), "0")
-        ck.ob("I-write-only-for-item", key, good, "%s must write the yielded item (and only it) into `out` exactly on the Some arm" % key, sample={"fn": key})
-        rs = {}
-        for d in body.defs().get(0, []):
-            if d[2] == "rv":
-                o = body.origin_rvalue(d[3])
-                arm = "some" if d[0] in some_b else ("none" if d[0] in none_b else "?")
-                rs[arm] = o
-        ck.ob("I-code-zero-iff-item", key, rs.get("some") == ("const", 0, "i32") and rs.get("none", ("x",))[0] == "const" and rs["none"][1] != 0 and "?" not in rs,
-              "%s returns %s (must be 0 exactly when an item was written)" % (key, {k: mir.fmt(v) for k, v in rs.items()}))
+        somes = [o for o in outs if any(c[0] == "discr" and c[2] == "Some" for c in o.conds)]
+        nones = [o for o in outs if any(c[0] == "discr" and c[2] == "None" for c in o.conds)]
+        if not ck.ob("I-dispatch", key, bool(somes) and bool(nones) and len(somes) + len(nones) == len(outs), "%s does not decide by the result of next(): %s" % (key, outs)):
+            continue
+        for o in somes:
+            nxt = o.calls(NEXT)[0]
+            pay = ("pay", ("opq", nxt[3], ("call",) + tuple(nxt[1:3]) + (None,)), "Some", 0)
+            writes = [e for e in o.calls() if e[1].endswith("::write") and sem.contains(e[2][0], lambda x: x == out)]
+
+            def is_item(v):
+                v = sem.strip(v)
+                return v[0] == "pay" and v[2] == "Some" and sem.strip(v[1])[0] == "opq" and sem.strip(v[1])[1] == nxt[3]
+            uses = [e for e in o.effects if e[0] in ("call", "icall") and any(sem.contains(a, is_item) or is_item(a) for a in e[2])]
+            bad = [e for e in o.effects if e[0] == "drop" or (e[0] in ("call", "icall") and e not in writes and e[1] != NEXT and not e[1].endswith("as_mut_ptr"))]
+            good = len(writes) == 1 and is_item(writes[0][2][-1]) and len(uses) == 1 and not bad and not o.state.over_touches(out)
+            ck.ob("I-write-only-for-item", key, good, "%s must write the yielded item (and only it) into `out`, once, without reading or dropping what was there: %s" % (key, o), sample={"fn": key})
+            ck.ob("I-code-zero-iff-item", key + "/Some", o.ret == ("const", 0), "%s returns %s for an item (must be 0)" % (key, sem.fmt(o.ret)))
+        for o in nones:
+            touched = [e for e in o.effects if e[0] in ("call", "icall", "drop") and e[1] != NEXT and any(sem.contains(a, lambda x: x == out) for a in (e[2] if e[0] != "drop" else (e[1],)))]
+            ck.ob("I-write-only-for-item", key + "/None", not touched and not o.state.over_touches(out), "%s touches `out` although the source ended: %s" % (key, o))
+            r = sem.strip(o.ret)
+            ck.ob("I-code-zero-iff-item", key + "/None", r[0] == "const" and r[1] != 0, "%s returns %s at the end (must be a non-zero constant)" % (key, sem.fmt(o.ret)))
     nf = by.get("<cglue::iter::CIterator<'a, T> as std::iter::Iterator>::next")
     if ck.require(nf is not None, "CIterator::next"):
         body = mir.Body(nf)
